@@ -26,8 +26,11 @@ open PM.Fock PM.Dist PM.SimSpec
 
 def sqrtScale : ℕ := 10 ^ 15
 
-/-- `x ≤ (sqrtUp x)²` and `0 ≤ sqrtUp x` for every `x` (`sqrtUp_sq`); exceeds `√x` by at most `2/10¹⁵` -/
-def sqrtUp (x : ℚ) : ℚ := ((Nat.sqrt ⌈x * ((sqrtScale * sqrtScale : ℕ) : ℚ)⌉₊ + 1 : ℕ) : ℚ) / (sqrtScale : ℚ)
+/-- `x ≤ (sqrtUp x)²` and `0 ≤ sqrtUp x` for every `x` (`sqrtUp_sq`); exceeds `√x` by at most `2/10¹⁵`;
+`sqrtUp x = 0` for `x ≤ 0` -/
+def sqrtUp (x : ℚ) : ℚ :=
+  if x ≤ 0 then 0
+  else ((Nat.sqrt ⌈x * ((sqrtScale * sqrtScale : ℕ) : ℚ)⌉₊ + 1 : ℕ) : ℚ) / (sqrtScale : ℚ)
 
 /-! ### the un-normalised result of `probs_svd` -/
 
@@ -78,21 +81,34 @@ def keysG {m : ℕ} (U : Matrix (Fin m) (Fin m) GQ) (θ : ℚ) (mb : Member) : L
 /-- scale from squared un-normalised amplitudes of the annotated output `k` to probabilities -/
 def keyScale (n2 : ℚ) (k : List Fock) : ℚ := (((k.map prodFact).prod : ℕ) : ℚ)⁻¹ * n2⁻¹
 
+/-- probability of an annotated output computed from its kept amplitude `b` -/
+def keptPOf (n2 : ℚ) (b : GQ) (k : List Fock) : ℚ := GQ.normSq b * keyScale n2 k
+
+/-- squared modulus (probability scale) of the amplitude left out: `a` without, `b` with the threshold -/
+def droppedPOf (n2 : ℚ) (a b : GQ) (k : List Fock) : ℚ := GQ.normSq (a - b) * keyScale n2 k
+
+/-- largest change of the probability of `k`: `| |b+l|² − |b|² | ≤ |l|² + 2·|b|·|l|` -/
+def keyErrOf (n2 : ℚ) (a b : GQ) (k : List Fock) : ℚ :=
+  droppedPOf n2 a b k + 2 * sqrtUp (keptPOf n2 b k) * sqrtUp (droppedPOf n2 a b k)
+
 /-- probability of the annotated output `k` computed from the kept components -/
 def keptP {m : ℕ} (U : Matrix (Fin m) (Fin m) GQ) (θ : ℚ) (mb : Member) (k : List Fock) : ℚ :=
-  GQ.normSq (ampGet (ampsθ U θ mb) k) * keyScale (svNorm2 mb.terms) k
+  keptPOf (svNorm2 mb.terms) (ampGet (ampsθ U θ mb) k) k
 
 /-- squared modulus of the amplitude the threshold left out of the annotated output `k` (probability scale) -/
 def droppedP {m : ℕ} (U : Matrix (Fin m) (Fin m) GQ) (θ : ℚ) (mb : Member) (k : List Fock) : ℚ :=
-  GQ.normSq (ampGet (ampsθ U 0 mb) k - ampGet (ampsθ U θ mb) k) * keyScale (svNorm2 mb.terms) k
+  droppedPOf (svNorm2 mb.terms) (ampGet (ampsθ U 0 mb) k) (ampGet (ampsθ U θ mb) k) k
 
-/-- largest change of the probability of `k`: `| |b+l|² − |b|² | ≤ |l|² + 2·|b|·|l|` -/
 def keyErr {m : ℕ} (U : Matrix (Fin m) (Fin m) GQ) (θ : ℚ) (mb : Member) (k : List Fock) : ℚ :=
-  droppedP U θ mb k + 2 * sqrtUp (keptP U θ mb k) * sqrtUp (droppedP U θ mb k)
+  keyErrOf (svNorm2 mb.terms) (ampGet (ampsθ U 0 mb) k) (ampGet (ampsθ U θ mb) k) k
 
-/-- the error bounds of the annotated outputs as a distribution over the outcomes -/
+/-- the error bounds of the annotated outputs as a distribution over the outcomes
+(`= (keysG U θ mb).map fun k => (flattenTuple m k, keyErr U θ mb k)`, the component lists evaluated once) -/
 def genericErrD {m : ℕ} (U : Matrix (Fin m) (Fin m) GQ) (θ : ℚ) (mb : Member) : D :=
-  (keysG U θ mb).map fun k => (flattenTuple m k, keyErr U θ mb k)
+  let a0 := ampsθ U 0 mb
+  let aθ := ampsθ U θ mb
+  let n2 := svNorm2 mb.terms
+  ((a0 ++ aθ).map (·.1)).dedup.map fun k => (flattenTuple m k, keyErrOf n2 (ampGet a0 k) (ampGet aθ k) k)
 
 /-! ### one member, either path -/
 
@@ -122,5 +138,16 @@ def errTot {m : ℕ} (U : Matrix (Fin m) (Fin m) GQ) (prec minp : ℚ) (ms : Lis
 /-- the bound after the final normalisation -/
 def errNormAt {m : ℕ} (U : Matrix (Fin m) (Fin m) GQ) (prec minp : ℚ) (ms : List Member) (t : Fock) : ℚ :=
   (errAt U prec minp ms t + get (probsSvd U 0 0 ms) t * errTot U prec minp ms) / mass (rawSvd U prec minp ms)
+
+/-! ### the same bounds as ONE list (what the driver evaluates: every member is visited once) -/
+
+def memberErrD {m : ℕ} (U : Matrix (Fin m) (Fin m) GQ) (sup : Bool) (θ : ℚ) (mb : Member) : D :=
+  if sup then genericErrD U θ mb else memberFast U 0 mb ++ scale (-1) (memberFast U θ mb)
+
+/-- `get (errD …) t = errAt … t` and `mass (errD …) = errTot …` (`errD_spec`) -/
+def errD {m : ℕ} (U : Matrix (Fin m) (Fin m) GQ) (prec minp : ℚ) (ms : List Member) : D :=
+  let pre := preprocess prec minp ms
+  mix ((preDropped prec minp ms).map fun mb => (mb.w, probsSV U mb.terms)) ++
+    mix (pre.kept.map fun mb => (mb.w, memberErrD U pre.superposed pre.θ mb))
 
 end PM.C03
